@@ -166,7 +166,14 @@ def check(rep, tier, seed):
     # corpus first: the recorded self-feeding macro
     selfmac = {"scenario": {"calls": 1, "no_snapshot": True}, "chunks": [b"a"], "inputrc": "\"a\": \"a\"\n", "step_timeout": 3.0}
     jobs.insert(0, selfmac)
-    res = P.run_many(jobs)
+    res = P.run_many(jobs, confirm_timing=False)
+    # spin / hang / died are decided by timers: a session classified that way (and not a recorded finding) is run again on its
+    # own, with more time, before it counts
+    reruns = 0
+    for k, (j, r) in enumerate(zip(jobs, res)):
+        if k > 0 and r["outcome"] in ("spin", "hang", "died") and not P.panics(r):
+            reruns += 1
+            res[k] = P.run_session(**dict(j, step_timeout=10.0))
     corr = correspondence(rnd, tier)
     known = {f["signature"].get("site"): f for f in rep.known if f["signature"].get("kind") in ("panic", "hang", "spin")}
     bad = []
@@ -207,7 +214,7 @@ def check(rep, tier, seed):
                 "(pty hang-up) at a random point in 30%% of the sessions; oracle: every Readline call returns or is blocked in its read - no panic, "
                 "no spin (CPU while not reading), no hang; non-trivial = distinct scripts with more than 3 reads",
         "samples": [{"inputrc": jobs[i]["inputrc"], "chunks": [c.decode("latin-1") if isinstance(c, bytes) else list(c) for c in jobs[i]["chunks"]][:8]} for i in (0, 1)],
-        "outcomes": outcomes, "bindings_drawn_from": nkeys,
+        "outcomes": outcomes, "bindings_drawn_from": nkeys, "timing_outcomes_rerun_alone": reruns,
         "oracle_on_impl": {"sessions": len(jobs), "failures_new": len(bad), "failures_known": hits},
         "correspondence": {"cases": corr["cases"], "mismatches": len(corr["mism"]), "ended_by_eof": corr["eof"],
                            "model_outcomes": corr["outcomes"],
